@@ -367,15 +367,43 @@ func (x *Exec) callContract(st *State, fi *FuncInfo, args []Val, pos token.Pos, 
 		}
 	}
 	x.callSeq++
-	tag := fmt.Sprintf("%s@%d", sanitize(key), x.callSeq)
+	// results and modified cells are deterministic (uninterpreted) functions of the callee's read footprint
+	fp := x.footprint(st, fi, args)
+	ufn := "F!" + sanitize(key)
 	for ri, r := range regs {
-		x.havocRegion(st, r, fmt.Sprintf("%s.m%d", tag, ri+1))
+		if r.Const > 0 {
+			for k := 0; k < r.Const; k++ {
+				v := UF(fmt.Sprintf("%s!m%d_%d", ufn, ri+1, k), r.Sorts[k], fp...)
+				x.storeHeapCell(st, r.Blk, BVAdd(r.Off, BV(int64(k), 64)), v)
+			}
+			continue
+		}
+		seen := map[*Sort]bool{}
+		for _, srt := range r.Sorts {
+			if seen[srt] {
+				continue
+			}
+			seen[srt] = true
+			h := x.heapOf(st, srt)
+			inner := Select(h, r.Blk)
+			ninner := UF(fmt.Sprintf("%s!m%d_arr%d", ufn, ri+1, srt.W), ArrS(BV64, srt), fp...)
+			o := Fresh("o", BV64)
+			in := And(ULE(r.Off, o), ULT(o, BVAdd(r.Off, r.N)))
+			ax := ForallPat([]*Term{o}, Implies(Not(in), Eq(Select(ninner, o), Select(inner, o))), []*Term{Select(ninner, o)})
+			x.assume(True(), ax)
+			st.Heap[srt] = Store(h, r.Blk, ninner)
+		}
 	}
 	var res Val
 	if resT != nil {
-		res = Val{C: x.freshCells(tag+".ret", resT)}
+		ss := cellsOf(resT)
+		res.C = make([]*Term, len(ss))
+		for k, srt := range ss {
+			res.C[k] = UF(fmt.Sprintf("%s!r%d", ufn, k), srt, fp...)
+		}
 		x.typeInv(st, resT, res.C)
 	}
+	x.calls = append(x.calls, &callRec{Key: key, FI: fi, Args: args, FP: fp, Res: res, Guard: st.G})
 	for k, g := range fi.Ens {
 		c := fi.C.Ensures[k]
 		if !x.tagOn(c.Tags) {
@@ -448,6 +476,23 @@ func (x *Exec) genArgs(g *GenFunc, args []Val, res *Val, olds map[int]Val, fr *F
 			o := tupleOffset(tp, a.Idx)
 			n := sizeOf(tp.At(a.Idx).Type())
 			out = append(out, Val{C: res.C[o : o+n]})
+		case "rangeindex":
+			if fr == nil || x.curLoop == nil {
+				x.fail("rangeindex used outside a range loop clause")
+			}
+			var al *ssa.Alloc
+			for _, in := range x.curLoop.header.Instrs {
+				if ld, ok := in.(*ssa.UnOp); ok && ld.Op == token.MUL {
+					if a, ok := ld.X.(*ssa.Alloc); ok && a.Comment == "rangeindex" {
+						al = a
+						break
+					}
+				}
+			}
+			if al == nil {
+				x.fail("loop %d is not a range loop", x.curLoop.ord)
+			}
+			out = append(out, x.readAlloc(fr, st, al))
 		case "local":
 			if fr == nil {
 				x.fail("local %s used outside a loop clause", a.Name)
@@ -619,6 +664,8 @@ func (x *Exec) fnWritesHeap(f *ssa.Function, seen map[*ssa.Function]bool) bool {
 }
 
 func (x *Exec) loopHead(fr *Frame, ld *loopData, st *State) {
+	x.curLoop = ld
+	defer func() { x.curLoop = nil }()
 	lc := x.loopContract(ld)
 	if lc == nil {
 		x.fail("loop %d of %s has no invariant", ld.ord, x.TopKey)
@@ -686,6 +733,8 @@ func (x *Exec) cover(site string, st *State) {
 }
 
 func (x *Exec) backEdge(fr *Frame, ld *loopData, st *State, from *ssa.BasicBlock) {
+	x.curLoop = ld
+	defer func() { x.curLoop = nil }()
 	lc := x.loopContract(ld)
 	invs := x.Top.LoopInv[ld.ord]
 	var pos token.Pos
@@ -844,4 +893,97 @@ func (x *Exec) verifyFunc() (err error) {
 
 func isByteRegion(r Region) bool {
 	return r.Const == 0 && len(r.Sorts) == 1 && r.Sorts[0] == BV8
+}
+
+type callRec struct {
+	Key   string
+	FI    *FuncInfo
+	Args  []Val
+	FP    []*Term
+	Res   Val
+	Guard *Term
+}
+
+// footprint: everything a callee can read through its arguments (two levels deep)
+func (x *Exec) footprint(st *State, fi *FuncInfo, args []Val) []*Term {
+	var out []*Term
+	seen := map[*Term]bool{}
+	add := func(t *Term) {
+		if !seen[t] {
+			seen[t] = true
+			out = append(out, t)
+		}
+	}
+	var visit func(t types.Type, c []*Term, depth int)
+	visit = func(t types.Type, c []*Term, depth int) {
+		for _, cc := range c {
+			add(cc)
+		}
+		if depth >= 2 {
+			return
+		}
+		var rec func(t types.Type, off int)
+		rec = func(t types.Type, off int) {
+			switch u := t.Underlying().(type) {
+			case *types.Pointer:
+				if _, isStruct := u.Elem().Underlying().(*types.Struct); !isStruct {
+					if _, isArr := u.Elem().Underlying().(*types.Array); !isArr {
+						if _, isB := u.Elem().Underlying().(*types.Basic); !isB {
+							return
+						}
+					}
+				}
+				x.spec++
+				pc := x.load(st, c[off:off+2], u.Elem(), token.NoPos)
+				x.spec--
+				visit(u.Elem(), pc, depth+1)
+			case *types.Slice:
+				if !x.lawMode {
+					return
+				}
+				sn := map[*Sort]bool{}
+				for _, srt := range cellsOf(u.Elem()) {
+					if !sn[srt] {
+						sn[srt] = true
+						add(Select(x.heapOf(st, srt), c[off]))
+					}
+				}
+			case *types.Struct:
+				o := off
+				for i := 0; i < u.NumFields(); i++ {
+					ft := u.Field(i).Type()
+					if hasSlice(ft) {
+						rec(ft, o)
+					}
+					o += sizeOf(ft)
+				}
+			case *types.Array:
+				if hasSlice(u.Elem()) {
+					es := sizeOf(u.Elem())
+					for i := 0; i < int(u.Len()); i++ {
+						rec(u.Elem(), off+i*es)
+					}
+				}
+			case *types.Interface:
+				// dynamic value: pointer to one of the known implementations
+				impls := x.W.ifaceImpls(t)
+				if len(impls) == 1 {
+					pt := impls[0].(*types.Pointer)
+					x.spec++
+					pc := x.load(st, c[off+1:off+3], pt.Elem(), token.NoPos)
+					x.spec--
+					visit(pt.Elem(), pc, depth+1)
+				}
+			}
+		}
+		if hasSlice(t) {
+			rec(t, 0)
+		} else if _, ok := t.Underlying().(*types.Interface); ok {
+			rec(t, 0)
+		}
+	}
+	for i, a := range args {
+		visit(fi.PTypes[i], a.C, 0)
+	}
+	return out
 }
